@@ -43,6 +43,9 @@ def deductive(rep: Report, prop: str, funcs: list[str], contracts_mod: str, incl
             rep.errors.append(f"{q}: {r.status}: {r.detail}")
             continue
         rep.functions.append(q)
+        for a in getattr(r, "assumption_log", []) or []:
+            if a not in rep.assumptions:
+                rep.assumptions.append(a)
         n_rel = 0
         func_props = set(c.props)
         for v in tags.values():
